@@ -399,6 +399,9 @@ func genCase(t *rapid.T) Case {
 	}
 
 	n := rapid.IntRange(2, 6).Draw(t, "nItems")
+	if chance(t, "manyItems", 20) {
+		n = rapid.IntRange(7, 24).Draw(t, "nManyItems") // two-digit positions in the batch
+	}
 	var natives []m.Request
 	for i := 0; i < n; i++ {
 		r := genNative(t, w, o, &c)
